@@ -20,7 +20,7 @@ tier: B
 backend: cadical
 unwind: 8
 unwind_thorough: 12
-bound: vector length <= 4, all key values (ascending, duplicates allowed), element of any key
+bound: vector length <= 4, all key values (ascending, duplicates allowed), element of any key [thorough tier: lengths up to 5]
 funcs: spif_linked_list_insert, spif_linked_list_item_comp
 */
 /*@unit
@@ -31,7 +31,7 @@ tier: B
 backend: cadical
 unwind: 8
 unwind_thorough: 12
-bound: vector length <= 4, all key values (ascending, duplicates allowed), probe of any key
+bound: vector length <= 4, all key values (ascending, duplicates allowed), probe of any key [thorough tier: lengths up to 5]
 funcs: spif_linked_list_remove
 */
 /*@unit
@@ -42,7 +42,7 @@ tier: B
 backend: cadical
 unwind: 8
 unwind_thorough: 12
-bound: vector length <= 4, all key values (ascending, duplicates allowed), probe of any key
+bound: vector length <= 4, all key values (ascending, duplicates allowed), probe of any key [thorough tier: lengths up to 5]
 funcs: spif_linked_list_vector_find, spif_linked_list_vector_contains
 */
 /*@unit
@@ -53,7 +53,7 @@ tier: B
 backend: cadical
 unwind: 8
 unwind_thorough: 12
-bound: vector length <= 4, all key values (ascending, duplicates allowed)
+bound: vector length <= 4, all key values (ascending, duplicates allowed) [thorough tier: lengths up to 5]
 funcs: spif_linked_list_to_array, spif_linked_list_iterator, spif_linked_list_iterator_has_next, spif_linked_list_iterator_next, spif_linked_list_count
 */
 #include "vprelude.h"
